@@ -63,6 +63,7 @@ PROPS = {
             'digit >= radix or no digit at all',
             'radix_and_digits: the prefix table incl. legacy "00"; the `&rest[2..]` slice is in range and on a char boundary',
             'decode_val: RFC 4648 alphabet; SfTag::can_parse_into_string table',
+            'scalar_is_nullish / scalar_is_nullish_for_option: exactly the documented null tables (plain empty / ~ / null in any case; for Option also an empty literal or folded scalar); quoted scalars are never null-like',
             'decode_base64_yaml (unit base64): Ok(v) iff the text with ASCII whitespace removed is STRICT CANONICAL RFC 4648 base64 '
             '(length a multiple of 4, alphabet only, `=` padding only in the last quantum, unused low bits zero) and v is exactly its '
             'decoding; otherwise InvalidBinaryBase64 - for texts of any length',
@@ -72,7 +73,7 @@ PROPS = {
             'value of its integer scalar under the configured options, up to and including the closing SeqEnd; anything else is an error',
         ],
         not_covered=[
-            'float values (str::parse::<f64> is std), bool/null tables (string comparisons are std)',
+            'float values (str::parse::<f64> is std), the YAML 1.1 / 1.2 bool tables (string comparisons are std; only uninterpreted here)',
             'what str::trim removes (uninterpreted spec_trim); deserialize_bool/f32/f64/char/str/string; deserialize_any inference order',
         ],
         assumptions=['str::trim / strip_prefix / starts_with / slicing behave as their shim contracts say (contracts/str.shim.rs)',
@@ -96,8 +97,9 @@ PROPS = {
         covered=['is_merge_key: exactly an untagged plain scalar `<<` standing alone (quoted or tagged `<<` is an ordinary key)',
                  'KeyNode accessors used by merge expansion',
                  'collect_entries_from_map: own fields first, then the collected merge sources flattened from the last to the first',
-                 'MA::enqueue_next_merge_batch: the newest non-empty merge batch is flushed next, in front of the queue'],
-        not_covered=['node-level correspondence of pending_entries_from_events / pending_entries_from_live_events with the merge_expand spec (their contracts are assumed); the history-level "own keys win" statement'],
+                 'MA::enqueue_next_merge_batch: the newest non-empty merge batch is flushed next, in front of the queue',
+                 'pending_entries_from_events / pending_entries_from_live_events / collect_entries_from_map (the mutually recursive merge expansion) are verified together: they terminate for every input (measure: events still to read, then rank), accept ONLY null-like scalars, mappings and sequences as merge values (anything else is an error), flatten a merge sequence from its last element to its first, and return only captured, well-formed nodes'],
+        not_covered=['a single spec function giving the fully merged mapping for a node (the pieces above are stated per function, over the local batches); the history-level "own keys win" statement'],
         assumptions=[],
     ),
     'C16': dict(
@@ -159,6 +161,8 @@ PROPS = {
             'VA::expect_map_end: closes exactly one mapping or fails; VA::unit_variant accepts only `Variant`, `{Variant}` closing at once, or `{Variant: <null-like>}`',
             'enforce_single_document_and_finish: succeeds only if nothing is left after the root value (or only garbage after an explicit document end)',
             'typed integer entry points and deserialize_bytes consume exactly the events of their own node (one scalar; or SeqStart..SeqEnd) before the visitor runs',
+            'deserialize_option: None exactly for nothing left / a container end / a !!null scalar / a null-like scalar (consumed: exactly that scalar) / an empty-mapping key (consumed whole); otherwise the visitor gets the deserializer with the cursor untouched. deserialize_unit: accepts only absence or a PLAIN null-like scalar',
+            'SA::next_element_seed (sequence access): None exactly at the SeqEnd, which is left for the caller; otherwise the element seed runs at the untouched cursor with the element\'s own location; end of input inside a sequence is an error',
         ],
         not_covered=['arity / field-name checks of serde-generated visitors; deserialize_option / deserialize_unit / deserialize_enum bodies (generic over Visitor); the inline copies of the leftover check in src/lib.rs entry points; the reference interpreter comparison'],
         assumptions=['scalar_is_nullish is used as an uninterpreted function of text and style'],
